@@ -176,6 +176,35 @@ Theorem c01_pluck_sound : forall (row : Type) (eqb : row -> row -> bool), (foral
 Proof. exact PluckSound.pluck_sound. Qed.
 Print Assumptions c01_pluck_sound.
 
+(* Real pipelines carry the sorts that sort inference re-emits in front of every take and at the end ([Sort k; Take; Sort k]).
+   A Sort equal to the one in effect does nothing (`c01_drop_resorts_run`), so the hypotheses are asked of the pipeline without
+   them: this is the form judged on every logged call (`SelectPluck.theorem_applies`, linked by `c01_kinds_theta_spec`). *)
+Theorem c01_drop_resorts_run : forall (row : Type) (eqb : row -> row -> bool), (forall x y, eqb x y = true <-> x = y) ->
+  forall (same : Theta2.cmp row -> Theta2.cmp row -> bool), (forall a b, same a b = true -> a = b) ->
+  forall (p : list (SelectPluck.pt (row -> bool) (Theta2.cmp row) (Theta2.agg row) Theta2.range unit)) cur l,
+  PluckSound.in_effect row cur l -> (forall c, In c (SelectPluck.sorts _ _ _ _ _ p) -> Theta2.good row c) ->
+  SegmentDistinct.run_d row eqb (PluckSound.to_trd row (SelectPluck.drop_resorts _ _ _ _ _ same cur p)) l
+  = SegmentDistinct.run_d row eqb (PluckSound.to_trd row p) l.
+Proof. exact PluckSound.drop_resorts_run. Qed.
+Print Assumptions c01_drop_resorts_run.
+
+Theorem c01_pluck_sound_resorted : forall (row : Type) (eqb : row -> row -> bool), (forall x y, eqb x y = true <-> x = y) ->
+  forall (same : Theta2.cmp row -> Theta2.cmp row -> bool), (forall a b, same a b = true -> a = b) ->
+  forall p : list (SelectPluck.pt (row -> bool) (Theta2.cmp row) (Theta2.agg row) Theta2.range unit),
+  SelectPluck.supported _ _ _ _ _ (SelectPluck.drop_resorts _ _ _ _ _ same None p) = true ->
+  SelectPluck.sorts_behind_agg _ _ _ _ _ (SelectPluck.drop_resorts _ _ _ _ _ same None p) = true ->
+  Forall (SegmentDistinct.good_d row) (PluckSound.to_trd row p) ->
+  clause_ordered (map (SegmentDistinct.kind_d row) (PluckSound.to_trd row (SelectPluck.drop_resorts _ _ _ _ _ same None p))) = true ->
+  SelectPluck.one_agg _ _ _ _ _ (SelectPluck.drop_resorts _ _ _ _ _ same None p) = true ->
+  forall base, PluckSound.sem_clauses row eqb (SelectPluck.pluck _ _ _ _ _ p) base = SegmentDistinct.run_d row eqb (PluckSound.to_trd row p) base.
+Proof. exact PluckSound.pluck_sound_resorted. Qed.
+Print Assumptions c01_pluck_sound_resorted.
+
+Theorem c01_kinds_theta_spec : forall (row : Type) (p : list (SelectPluck.pt (row -> bool) (Theta2.cmp row) (Theta2.agg row) Theta2.range unit)),
+  map (SegmentDistinct.kind_d row) (PluckSound.to_trd row p) = SelectPluck.kinds_theta _ _ _ _ _ p.
+Proof. exact PluckSound.kinds_theta_spec. Qed.
+Print Assumptions c01_kinds_theta_spec.
+
 (* ---- (a) the edge cases the property names, as facts of the reference semantics ---- *)
 Theorem c01_agg_one_row : forall cols l, length (Rel.apply (TAggregate cols) l) = 1%nat.
 Proof. exact agg_one_row. Qed.
@@ -202,6 +231,12 @@ Example c01_ex_pluck :
   SelectPluck.pluck nat nat nat nat nat [QSelect; QFrom; QFilter 1%nat; QSort 2%nat; QAggregate 3%nat; QFilter 4%nat; QSort 5%nat; QTake 6%nat; QSort 5%nat; QTake 7%nat]
   = SelectPluck.mkClauses nat nat nat nat nat [1%nat] (Some 3%nat) [4%nat] (Some 5%nat) [6%nat; 7%nat] false [].
 Proof. vm_compute. reflexivity. Qed.
+(* [Sort k; Take; Sort k; Take; Sort k'] : the re-emitted Sort k goes, the different one stays; the hypotheses hold of the rest *)
+Example c01_ex_drop_resorts :
+  SelectPluck.drop_resorts nat nat nat nat nat Nat.eqb None [QFrom; QFilter 1%nat; QSort 7%nat; QTake 2%nat; QSort 7%nat; QTake 3%nat; QSort 7%nat]
+  = [QFrom; QFilter 1%nat; QSort 7%nat; QTake 2%nat; QTake 3%nat] /\
+  SelectPluck.theorem_applies nat nat nat nat nat Nat.eqb [QFrom; QFilter 1%nat; QSort 7%nat; QTake 2%nat; QSort 7%nat; QTake 3%nat; QSort 7%nat] = (true, true, true, true).
+Proof. vm_compute. split; reflexivity. Qed.
 (* a concrete segment with DISTINCT meeting the hypotheses of c01_clause_ordered_segment_distinct_sound, and its value *)
 Example c01_ex_distinct_segment :
   let p := [SegmentDistinct.Old nat (SegmentSound.TF nat (fun x => Nat.ltb 1%nat x));
